@@ -47,3 +47,26 @@ Require RV.Gen.Sites RV.Model.SiteMap RV.Proofs.SitesFacts.
 Theorem C07_literals_reviewed : RV.Model.SiteMap.literals_ok RV.Model.SiteMap.files_C07.
 Proof. apply RV.Proofs.SitesFacts.literals_okb_sound. vm_compute. reflexivity. Qed.
 Print Assumptions C07_literals_reviewed.
+
+(* ---- the classifier AS TRANSLATED FROM THE SOURCE on this run ----
+   Gen/Code.v gen_nonce_from_request (with gen_is_rfc_request, gen_nonce_from_classic_request,
+   gen_nonce_from_rfc_request, gen_get_supported_version) is produced by /verif/rs2coq from
+   src/request.rs: the length gate, the framing test, `?`, early returns, the match guards, the
+   nested version loops and the checked `buf.len() - 12` are translated structurally; message
+   decoding, field lookup and slicing go through the table in rs2coq/targets.txt. On the receive
+   buffer `d ++ rest` (whatever stale bytes follow the datagram) with num_bytes = |d| it is the
+   modelled classifier — in particular none of its panic sites (slices, the subtraction, the unwrap)
+   is reachable — so C07_only_wellformed holds of the code as written today. *)
+Require Import RV.Model.GenSupport RV.Gen.Code RV.Proofs.CodeFacts.
+
+Theorem C07_translated_classifier_is_model :
+  forall srv d rest, gen_nonce_from_request (d ++ rest) (lenN d) srv = classify srv d.
+Proof. exact gen_nonce_from_request_model. Qed.
+Print Assumptions C07_translated_classifier_is_model.
+
+Theorem C07_translated_classifier_only_wellformed :
+  forall srv d rest,
+    ok_opt (gen_nonce_from_request (d ++ rest) (lenN d) srv) = wellformed srv d
+    /\ is_panic (gen_nonce_from_request (d ++ rest) (lenN d) srv) = false.
+Proof. intros srv d rest. rewrite gen_nonce_from_request_model. apply C07_only_wellformed. Qed.
+Print Assumptions C07_translated_classifier_only_wellformed.
